@@ -567,7 +567,20 @@ fn c12_stale(op: u8) {
         assert!(res == Some(false));
         assert!(vgm::vg().he_calls == calls_at_reply + 1 && vgm::vg().he_ring_active, "C12: the retained kick is processed once the ring is enabled again");
     }
-    kani::cover!(vgm::vg().he_calls == calls_at_reply + if op != 2 { 1 } else { 0 }, "witness: the schedule runs to its end");
+    if op == 2 {
+        // stop / restart: GET_VRING_BASE leaves the ring enabled; a new kick descriptor starts it again and a
+        // kick raised on it must be processed (no wake-up lost after the restart)
+        let fd2 = vgm::FD0 + 1;
+        let r = h.set_vring_kick(0, Some(file(fd2)));
+        assert!(r.is_ok());
+        std::mem::forget(r);
+        vgm::kick(fd2);
+        assert!(vgm::registered(epfd, fd2) == Some(0), "C12: the restarted ring is watched again (otherwise every later kick is lost)");
+        let res = ev::worker_handle_event(&h.handlers[0], 0);
+        assert!(res == Some(false));
+        assert!(vgm::vg().he_calls == calls_at_reply + 1 && vgm::vg().he_ring_active, "C12: a kick on the restarted ring is processed");
+    }
+    kani::cover!(vgm::vg().he_calls == calls_at_reply + 1, "witness: the schedule runs to its end");
 }
 /// W2 . C . worker continues: the worker has read the kick of an active ring (lock released) and is about to
 /// enter the backend's event handler when a disabling / stopping message is processed completely
@@ -601,7 +614,7 @@ h_proof! { #[kani::unwind(4)] fn c12_window_reset() { c12_window(3) } }
 
 // @harness props=C12 tier=quick reach=off timeout=900 mem=24 bound="schedule W1.C.W for C = SET_VRING_ENABLE(0): worker holds a stale epoll event while the ring is disabled, then re-enabled (2 Mutex rings, one worker)" stubs="Epoll::ctl (ghost interest lists), EventConsumer::consume, EventNotifier::notify, close/OwnedFd::drop"
 h_proof! { #[kani::unwind(4)] fn c12_stale_disable() { c12_stale(1) } }
-// @harness props=C12 tier=quick reach=off timeout=900 mem=24 bound="schedule W1.C.W for C = GET_VRING_BASE: worker holds a stale epoll event while the ring is stopped" stubs="Epoll::ctl (ghost interest lists), EventConsumer::consume, EventNotifier::notify, close/OwnedFd::drop"
+// @harness props=C12 tier=quick reach=off timeout=900 mem=24 bound="schedule W1.C.W for C = GET_VRING_BASE: worker holds a stale epoll event while the ring is stopped; then restart with a new kick descriptor and one kick" stubs="Epoll::ctl (ghost interest lists), EventConsumer::consume, EventNotifier::notify, close/OwnedFd::drop"
 h_proof! { #[kani::unwind(4)] fn c12_stale_get_vring_base() { c12_stale(2) } }
 // @harness props=C12 tier=quick reach=off timeout=900 mem=24 bound="schedule W1.C.W for C = RESET_DEVICE: worker holds a stale epoll event while all rings are disabled, then re-enabled" stubs="Epoll::ctl (ghost interest lists), EventConsumer::consume, EventNotifier::notify, close/OwnedFd::drop"
 h_proof! { #[kani::unwind(4)] fn c12_stale_reset() { c12_stale(3) } }
